@@ -135,6 +135,21 @@ pub struct SweepOpts {
     pub offset: u64,
 }
 
+/// Runs `f` on a fresh thread and waits up to `secs` seconds of wall-clock time for it.
+/// Used before non-termination is reported: on an overloaded machine a healthy execution can be
+/// starved for longer than the monitor's limit, a looping one never comes back.
+pub fn finishes_within(secs: u64, f: impl FnOnce() + Send + 'static) -> bool {
+    let (tx, rx) = std::sync::mpsc::channel();
+    let spawned = std::thread::Builder::new().stack_size(64 << 20).spawn(move || {
+        let _ = std::panic::catch_unwind(std::panic::AssertUnwindSafe(f));
+        let _ = tx.send(());
+    });
+    if spawned.is_err() {
+        return true;
+    }
+    rx.recv_timeout(std::time::Duration::from_secs(secs)).is_ok()
+}
+
 /// exit code used when too many executions are stuck and the run is aborted
 pub static STUCK_EXIT: AtomicU64 = AtomicU64::new(2);
 /// executions completed so far in this process (for the evidence written when aborting)
